@@ -69,7 +69,7 @@ theorem frameTail_fields (useDtx isSil : Bool) (mode : Mode) (fQ1 : Nat) (tc : B
     (frameTail useDtx isSil mode fQ1 tc act st o).1.silk = st.silk ∧
     (frameTail useDtx isSil mode fQ1 tc act st o).1.modeNch = st.modeNch ∧
     (frameTail useDtx isSil mode fQ1 tc act st o).1.prevMode = (if tc then .celt else mode) := by
-  by_cases h : useDtx = true ∧ (o.valid = true ∨ isSil = true) <;> simp [frameTail, h]
+  by_cases h : useDtx = true ∧ st.silkUseDtx = false <;> simp [frameTail, h]
 
 theorem frameStep_silkUseDtx (useDtx isSil : Bool) (mode : Mode) (fQ1 : Nat) (tc : Bool) (st : St) (o : Sub) :
     (frameStep useDtx isSil mode fQ1 tc st o).1.silkUseDtx = st.silkUseDtx := by
@@ -84,13 +84,15 @@ theorem frameStep_silkUseDtx (useDtx isSil : Bool) (mode : Mode) (fQ1 : Nat) (tc
 theorem frameStep_generalised (useDtx isSil : Bool) (mode : Mode) (fQ1 : Nat) (tc : Bool) (st : St) (o : Sub)
     (hs : st.silkUseDtx = false) :
     (frameStep useDtx isSil mode fQ1 tc st o).2.1 =
-        (if useDtx = true ∧ (o.valid = true ∨ isSil = true) then (decideDtx (activityOf isSil o.valid o.det ≠ 0) st.nb fQ1).1 else false)
+        (if useDtx = true then (decideDtx (activityOf isSil o.valid o.det ≠ 0) st.nb fQ1).1 else false)
     ∧ (frameStep useDtx isSil mode fQ1 tc st o).1.nb =
-        (if useDtx = true ∧ (o.valid = true ∨ isSil = true) then (decideDtx (activityOf isSil o.valid o.det ≠ 0) st.nb fQ1).2 else 0) := by
+        (if useDtx = true then (decideDtx (activityOf isSil o.valid o.det ≠ 0) st.nb fQ1).2 else 0) := by
   unfold frameStep
   simp only [frameSilk_useDtx_false _ _ _ _ hs, if_false]
-  by_cases h : useDtx = true ∧ (o.valid = true ∨ isSil = true) <;>
-    simp [frameTail, h, (frameSilk_fields _ _ _ _).1]
+  have hs' : (frameSilk mode (activityOf isSil o.valid o.det) st o).1.silkUseDtx = false := by
+    rw [(frameSilk_fields _ _ _ _).2.2.1]; exact hs
+  by_cases h : useDtx = true <;>
+    simp [frameTail, h, hs', (frameSilk_fields _ _ _ _).1]
 
 theorem frameStep_useDtx_false (isSil : Bool) (mode : Mode) (fQ1 : Nat) (tc : Bool) (st : St) (o : Sub)
     (hs : st.silkUseDtx = false) : (frameStep false isSil mode fQ1 tc st o).2.1 = false := by
@@ -106,7 +108,22 @@ theorem frameStep_active (useDtx : Bool) (mode : Mode) (fQ1 : Nat) (tc : Bool) (
   have ha : activityOf false o.valid o.det = 1 := by simp [activityOf, hv, hd]
   rw [ha] at this
   simp [decideDtx_active] at this
-  exact this
+  cases useDtx <;> simp_all
+
+/-- Under SILK's own DTX a coded frame is dropped only by SILK (zero bytes); otherwise the counter of
+    the generalised detector is cleared. -/
+theorem frameStep_silk_charge (useDtx isSil : Bool) (mode : Mode) (fQ1 : Nat) (tc : Bool) (st : St) (o : Sub)
+    (hs : st.silkUseDtx = true) (h : (frameStep useDtx isSil mode fQ1 tc st o).2.1 = true) :
+    (frameSilk mode (activityOf isSil o.valid o.det) st o).2 = some true ∧
+    (frameStep useDtx isSil mode fQ1 tc st o).1 = (frameSilk mode (activityOf isSil o.valid o.det) st o).1 := by
+  unfold frameStep at h ⊢
+  simp only at h ⊢
+  by_cases hz : (frameSilk mode (activityOf isSil o.valid o.det) st o).2 = some true
+  · simp [hz]
+  · simp only [hz, if_false] at h
+    have hs' : (frameSilk mode (activityOf isSil o.valid o.det) st o).1.silkUseDtx = true := by
+      rw [(frameSilk_fields _ _ _ _).2.2.1]; exact hs
+    simp [frameTail, hs'] at h
 
 /-! ### The frame loop -/
 
